@@ -153,6 +153,57 @@ fn run_reader_tcp_once(rt: &tokio::runtime::Runtime, chunks: Vec<Vec<u8>>) -> Op
     }))
 }
 
+/// Time as part of the schedule: the feed falls silent for `silence` after chunk number `after` (possibly in the middle of
+/// a frame), and/or the consumer takes `pause` before asking for the message after the first one. Neither may change
+/// what is handed on.
+fn run_reader_tcp_slow(rt: &tokio::runtime::Runtime, chunks: Vec<Vec<u8>>, after: usize, silence: std::time::Duration, pause: std::time::Duration) -> Option<Result<Vec<Vec<u8>>, (String, String)>> {
+    use tokio::io::AsyncWriteExt;
+    let setup = rt.block_on(async {
+        let l = tokio::net::TcpListener::bind("127.0.0.1:0").await.ok()?;
+        let addr = l.local_addr().ok()?;
+        let c = tokio::net::TcpStream::connect(addr).await.ok()?;
+        let (srv, _) = l.accept().await.ok()?;
+        Some((c, srv))
+    });
+    let (client, mut server) = setup?;
+    Some(guarded(|| {
+        rt.block_on(async {
+            let _ = server.set_nodelay(true);
+            let writer = tokio::spawn(async move {
+                for (i, c) in chunks.into_iter().enumerate() {
+                    if server.write_all(&c).await.is_err() {
+                        break;
+                    }
+                    let _ = server.flush().await;
+                    if i == after && !silence.is_zero() {
+                        tokio::time::sleep(silence).await;
+                    } else {
+                        tokio::time::sleep(std::time::Duration::from_millis(30)).await;
+                    }
+                }
+                let _ = server.shutdown().await;
+            });
+            let out = {
+                let s = next_msg(DataSource::Tcp(client)).await;
+                pin_mut!(s);
+                let mut out = vec![];
+                while let Some(m) = s.next().await {
+                    out.push(m);
+                    if out.len() == 1 && !pause.is_zero() {
+                        tokio::time::sleep(pause).await;
+                    }
+                    if out.len() > 100_000 {
+                        break;
+                    }
+                }
+                out
+            };
+            finish_peer(writer).await;
+            out
+        })
+    }))
+}
+
 /// wait for the feeding task, but never for ever: it is aborted when it does not end within the watchdog
 async fn finish_peer(h: tokio::task::JoinHandle<()>) {
     let a = h.abort_handle();
@@ -490,7 +541,7 @@ fn exercise(r: &mut Report, rt: &tokio::runtime::Runtime, rng: &mut Rng, frames:
 }
 
 pub fn run(a: &Args, r: &mut Report) {
-    r.rule = "frame sequences of 1-8 Beast frames (0x31/0x32/0x33 and 0x34 which must be swallowed), 0x1A density 0-40 %, runs of 2-6 consecutive 0x1A, 0x1A as first/last byte of timestamp, signal and payload, 4 % whole-frame patterns (all zeros, all ones, one repeated byte, empty header or empty payload); chunkings: one piece, EVERY single cut and EVERY pair of cuts of each short stream (<= 80 raw bytes quick, <= 200 thorough), random multi-cut, 1-byte dribble, cuts before/between/after every escape pair of long streams (up to 3000 bytes, 1024-byte reads); delivered through hook H1 on a current-thread executor; in addition random chunkings through the real TCP, UDP and websocket arms over loopback sockets (no hook; UDP judged on content only), incl. datagrams and messages longer than 1024 bytes, and partitions with empty pieces (zero-length datagrams, empty websocket messages, empty hook chunks). distinct = distinct (stream, chunking) pairs with a correct result".into();
+    r.rule = "frame sequences of 1-8 Beast frames (0x31/0x32/0x33 and 0x34 which must be swallowed), 0x1A density 0-40 %, runs of 2-6 consecutive 0x1A, 0x1A as first/last byte of timestamp, signal and payload, 4 % whole-frame patterns (all zeros, all ones, one repeated byte, empty header or empty payload); chunkings: one piece, EVERY single cut and EVERY pair of cuts of each short stream (<= 80 raw bytes quick, <= 200 thorough), random multi-cut, 1-byte dribble, cuts before/between/after every escape pair of long streams (up to 3000 bytes, 1024-byte reads); delivered through hook H1 on a current-thread executor; in addition random chunkings through the real TCP, UDP and websocket arms over loopback sockets (no hook; UDP judged on content only), incl. datagrams and messages longer than 1024 bytes, and partitions with empty pieces (zero-length datagrams, empty websocket messages, empty hook chunks); on every fourth shard two deliveries in real time: six seconds of silence inside a frame, and a consumer that pauses six seconds between two messages. distinct = distinct (stream, chunking) pairs with a correct result".into();
     r.assumptions.push("a frame may stay pending while fewer than 23 bytes (one byte of slack per escape pair, for chunked deliveries) of the stream remain after the last frame handed on".into());
     let rt = tokio::runtime::Builder::new_current_thread().build().unwrap();
     if let Some(p) = &a.replay {
@@ -498,7 +549,18 @@ pub fn run(a: &Args, r: &mut Report) {
         let raw = hex::decode(v["replay"]["stream"].as_str().unwrap()).unwrap();
         let cuts: Vec<usize> = v["replay"]["cuts"].as_array().unwrap().iter().map(|x| x.as_u64().unwrap() as usize).collect();
         let one = run_reader(&rt, split(&raw, &[]));
-        let got = run_reader(&rt, split(&raw, &cuts));
+        let sig = v["signature"].as_str().unwrap_or("");
+        let got = if sig.contains("slow-") {
+            // the deliveries in real time are replayed in real time
+            let rt_io = tokio::runtime::Builder::new_current_thread().enable_all().build().unwrap();
+            let (silence, pause) = if sig.contains("slow-feed") { (6, 0) } else { (0, 6) };
+            match run_reader_tcp_slow(&rt_io, split(&raw, &cuts), 1, std::time::Duration::from_secs(silence), std::time::Duration::from_secs(pause)) {
+                Some(x) => x,
+                None => run_reader(&rt, split(&raw, &cuts)),
+            }
+        } else {
+            run_reader(&rt, split(&raw, &cuts))
+        };
         r.evaluations += 1;
         r.extra.insert("one_piece".into(), json!(one.as_ref().map(|v| v.iter().map(|m| hexs(m)).collect::<Vec<_>>()).map_err(|e| e.1.clone())));
         r.extra.insert("chunked".into(), json!(got.as_ref().map(|v| v.iter().map(|m| hexs(m)).collect::<Vec<_>>()).map_err(|e| e.1.clone())));
@@ -607,6 +669,28 @@ pub fn run(a: &Args, r: &mut Report) {
             r.class("sockets:loopback-unavailable(socket arms not exercised)");
         }
     }
+    // time as part of the schedule (real seconds, so only a few cases on every fourth shard): a feed that falls silent
+    // for six seconds in the middle of a frame, and a consumer that takes six seconds between two messages
+    if !a.asan && a.shard % 4 == 0 && a.replay.is_none() {
+        let rt_io = tokio::runtime::Builder::new_current_thread().enable_all().build().unwrap();
+        for (label, silence, pause) in [("slow-feed(6 s of silence inside a frame)(real socket arm)", 6, 0), ("slow-consumer(6 s between two messages)(real socket arm)", 0, 6)] {
+            let frames: Vec<Frame> = (0..6).map(|i| gen_frame(&mut rng, 0.05, [0x31u8, 0x32, 0x33, 0x33, 0x32, 0x31][i])).collect();
+            let mut raw = vec![];
+            let mut frame_end = vec![];
+            for f in &frames {
+                raw.extend_from_slice(&f.raw);
+                frame_end.push(raw.len());
+            }
+            let expected: Vec<&[u8]> = frames.iter().map(|f| f.plain.as_slice()).collect();
+            let case = Case { frames: &frames, raw: raw.clone(), expected, frame_end: frame_end.clone() };
+            // cuts: after the first frame, in the middle of the third, after the fourth
+            let cuts = vec![frame_end[0], (frame_end[1] + frame_end[2]) / 2, frame_end[3]];
+            let coarse = run_reader(&rt, split(&raw, &[]));
+            if let Some(got) = with_retry(|c| run_reader_tcp_slow(&rt_io, c, 1, std::time::Duration::from_secs(silence), std::time::Duration::from_secs(pause)), split(&raw, &cuts)) {
+                judge(r, &case, &cuts, &got, coarse.as_ref().ok(), label);
+            }
+        }
+    }
     // very long streams delivered in very large pieces: one hook chunk, UDP datagrams up to 60 000 bytes, websocket
     // messages of 20 000 and 100 000 bytes (a reader whose buffer is smaller than the piece loses its tail)
     if !a.asan {
@@ -663,6 +747,6 @@ pub fn run(a: &Args, r: &mut Report) {
         exercise(r, &rt, &mut rng, &frames, false, 0);
     }
     if !a.asan {
-        r.extra.insert("mandatory".into(), json!(["one-piece", "single-cut(exhaustive)", "double-cut(exhaustive)", "dribble(1-byte reads)", "cut:between-two-0x1A", "cut:just-after-0x1A", "cut:just-before-0x1A", "cut:at-frame-boundary", "cut-at-escape-pair", "udp-large-datagram(real socket arm)", "websocket-loopback(real socket arm)", "websocket-large-message(real socket arm)", "very-large-read:hook(one chunk)", "udp-very-large-datagram(real socket arm)", "websocket-very-large-message(real socket arm)", "whole-stream-in-one-read(> 1024 bytes)", "tcp-loopback(real socket arm)", "empty-piece(hook)", "udp-zero-length-datagram(real socket arm)", "websocket-empty-message(real socket arm)"]));
+        r.extra.insert("mandatory".into(), json!(["one-piece", "single-cut(exhaustive)", "double-cut(exhaustive)", "dribble(1-byte reads)", "cut:between-two-0x1A", "cut:just-after-0x1A", "cut:just-before-0x1A", "cut:at-frame-boundary", "cut-at-escape-pair", "udp-large-datagram(real socket arm)", "websocket-loopback(real socket arm)", "websocket-large-message(real socket arm)", "very-large-read:hook(one chunk)", "udp-very-large-datagram(real socket arm)", "websocket-very-large-message(real socket arm)", "whole-stream-in-one-read(> 1024 bytes)", "tcp-loopback(real socket arm)", "empty-piece(hook)", "udp-zero-length-datagram(real socket arm)", "websocket-empty-message(real socket arm)", "slow-feed(6 s of silence inside a frame)(real socket arm)", "slow-consumer(6 s between two messages)(real socket arm)"]));
     }
 }
